@@ -10,7 +10,7 @@ use std::process::{Child, ChildStdin, ChildStdout, Command, Stdio};
 
 pub static PROP: Prop = Prop {
     id: "C19",
-    rule: "(a) differential: every program is run by this process (built with the rc memory strategy) and by a server process built from the same sources with the arc strategy; stdout, outcome class and error text must be identical. Programs: every runnable corpus item (guide, core-library docs, koto test scripts), proptest-generated core programs (the C01 generator: operators, containers, control flow) and function programs (closures, generators, captures), C14 container histories over aliased containers, C13 iterator pipelines and C15 string batches. (b) atomicity under arc, run inside the arc-built binary: N in {2, 4, 8} threads, each with its own runtime sharing ONE list or map through the prelude, run generated scripts of single-container operations (push / pop / insert / remove / extend / fill / resize / sort / reverse / clear / to_tuple / size / get / contains_key / update ...). Mixes are chosen so that an invariant is checkable: (i) counting: each thread pushes / inserts K distinct tagged items and nothing removes them: afterwards exactly N x K items, each once (no lost update); (ii) uniform fill: writers only `fill` / `resize ... value` with a per-thread constant while readers take `to_tuple()` snapshots: every snapshot is uniform within the region one operation writes (no partially updated container observed); (iii) paired extend: writers `extend` by a pair (x, x) and readers check every snapshot has even length with equal neighbours; (iv) mixed mutation storm with a watchdog: every thread finishes (no deadlock on a single container) and the container is still well-formed (size equals the number of iterated items, map keys unique). Non-trivial: (a) programs that build containers, closures or iterators; (b) every stress run.",
+    rule: "(a) differential: every program is run by this process (built with the rc memory strategy) and by a server process built from the same sources with the arc strategy; stdout, outcome class and error text must be identical. Programs: every runnable corpus item (guide, core-library docs, koto test scripts), proptest-generated core programs (the C01 generator: operators, containers, control flow) and function programs (closures, generators, captures), C14 container histories over aliased containers, C13 iterator pipelines and C15 string batches. (b) atomicity under arc, run inside the arc-built binary: N in {2, 4, 8} threads, each with its own runtime sharing ONE list or map through the prelude, run generated scripts of single-container operations (push / pop / insert / remove / extend / fill / resize / sort / reverse / clear / to_tuple / size / get / contains_key / update ...). Mixes are chosen so that an invariant is checkable: (i) counting: each thread pushes / inserts / extends by K distinct tagged items and nothing removes them: afterwards exactly N x K items, each once (no lost update); (ii) uniform fill: writers only `fill` / `resize ... value` with a per-thread constant while readers take `to_tuple()` snapshots: every snapshot is uniform within the region one operation writes (no partially updated container observed); (iii) paired extend: writers `extend` by a pair (x, x) and readers check every snapshot has even length with equal neighbours; (iv) every language-level read form (index, slice, size, first / last, get, contains, iteration, access, keys) looping against push / pop or insert / remove writers, and mixed mutation storms, with a watchdog: every thread finishes (no deadlock on a single container) and the container is still well-formed (size equals the number of iterated items, map keys unique). Non-trivial: (a) programs that build containers, closures or iterators; (b) every stress run.",
     assumptions: &[
         "the arc build is a second cargo target directory of the same engine crate (features = arc); it is rebuilt from /repo's working tree by ./check C19",
         "stress runs repeat with varied thread counts and mixes; interleavings are explored by repetition, not controlled scheduling (loom / shuttle cannot drive parking_lot locks inside koto without patching it)",
@@ -176,6 +176,40 @@ mod stress {
                     s.push_str(&format!("bad = 0\nfor i in 0..{k}\n  t = shared.to_tuple()\n  if (size t) % 2 != 0\n    bad += 1\n  else\n    for c in t.chunks 2\n      cc = c.to_tuple()\n      if cc[0] != cc[1]\n        bad += 1\nexport bad = bad\n"));
                 }
             }
+            "extend-count-map" => {
+                // inserts and extends of distinct keys race: every key must be there at the end
+                if tid % 2 == 0 {
+                    s.push_str(&format!("for i in 0..{k}\n  shared.insert '{tid}:{{i}}', i\n"));
+                } else {
+                    s.push_str(&format!("for i in 0..{k}\n  m = {{}}\n  m.insert '{tid}:{{i}}', i\n  shared.extend m\n"));
+                }
+            }
+            "extend-count-list" => {
+                if tid % 2 == 0 {
+                    s.push_str(&format!("for i in 0..{k}\n  shared.push '{tid}:{{i}}'\n"));
+                } else {
+                    s.push_str(&format!("for i in 0..{k}\n  shared.extend ('{tid}:{{i}}',)\n"));
+                }
+            }
+            "read-forms-list" => {
+                // language-level reads against push / pop writers; only termination is judged
+                if tid % 2 == 0 {
+                    s.push_str(&format!("for i in 0..{}\n  shared.push i\n  shared.pop()\n", k * 40));
+                } else {
+                    let forms = ["x = shared[0]", "x = size shared", "x = shared.first()", "x = shared[0..1]", "x = shared.get 0", "x = shared.contains 1", "x = shared.to_tuple()", "x = shared.last()", "for v in shared\n    break", "x = shared[..]", "x = shared.is_empty()", "x = (shared, 1)[0][0]"];
+                    let form = forms[(tid / 2 + (seed as usize % forms.len())) % forms.len()];
+                    s.push_str(&format!("for i in 0..{}\n  {form}\n", k * 40));
+                }
+            }
+            "read-forms-map" => {
+                if tid % 2 == 0 {
+                    s.push_str(&format!("for i in 0..{}\n  shared.insert 'tmp', i\n  shared.remove 'tmp'\n", k * 40));
+                } else {
+                    let forms = ["x = shared.a", "x = shared.get 'a'", "x = size shared", "x = shared.contains_key 'a'", "x = shared.keys().next()", "x = shared.get_index 0", "x = shared[0]", "for k2, v in shared\n    break", "x = shared.is_empty()", "x = shared.values().next()"];
+                    let form = forms[(tid / 2 + (seed as usize % forms.len())) % forms.len()];
+                    s.push_str(&format!("for i in 0..{}\n  {form}\n", k * 40));
+                }
+            }
             "map-update" => {
                 // every thread increments its own key and a common key through single operations
                 s.push_str(&format!("for i in 0..{k}\n  shared.update 'own{tid}', 0, |x| x + 1\n  y = shared.get 'own{tid}'\n  assert y == i + 1\n"));
@@ -203,8 +237,15 @@ mod stress {
         let threads = req["threads"].as_u64().unwrap_or(4) as usize;
         let k = req["k"].as_u64().unwrap_or(200) as usize;
         let seed = req["seed"].as_u64().unwrap_or(1);
-        let is_map = matches!(mix.as_str(), "count-map" | "map-update" | "storm-map");
-        let shared: KValue = if is_map {
+        let is_map = matches!(mix.as_str(), "count-map" | "map-update" | "storm-map" | "extend-count-map" | "read-forms-map");
+        let shared: KValue = if mix == "read-forms-map" {
+            let m = KMap::default();
+            m.insert("a", KValue::Number(1.into()));
+            m.insert("b", KValue::Number(2.into()));
+            KValue::Map(m)
+        } else if mix == "read-forms-list" {
+            KValue::List(KList::from_slice(&[KValue::Number(1.into()), KValue::Number(2.into()), KValue::Number(3.into())]))
+        } else if is_map {
             KValue::Map(KMap::default())
         } else if mix == "fill" {
             KValue::List(KList::from_slice(&vec![KValue::Number(0.into()); 64]))
@@ -279,7 +320,17 @@ mod stress {
                     return json!({"violation": "lost-update", "detail": format!("{} items, {} distinct, expected {} (mix {mix}, {threads} threads x {k})", items.len(), sorted.len(), threads * k)});
                 }
             }
-            "count-map" => {
+            "extend-count-list" => {
+                let KValue::List(l) = &shared else { unreachable!() };
+                let mut items: Vec<String> = l.data().iter().map(|v| if let KValue::Str(s) = v { s.to_string() } else { "?".into() }).collect();
+                let n = items.len();
+                items.sort();
+                items.dedup();
+                if n != threads * k || items.len() != threads * k {
+                    return json!({"violation": "lost-update", "detail": format!("{n} items, {} distinct, expected {} (mix {mix}, {threads} threads x {k})", items.len(), threads * k)});
+                }
+            }
+            "count-map" | "extend-count-map" => {
                 let KValue::Map(m) = &shared else { unreachable!() };
                 if m.len() != threads * k {
                     return json!({"violation": "lost-update", "detail": format!("{} entries, expected {} (mix {mix})", m.len(), threads * k)});
@@ -328,7 +379,7 @@ mod stress {
     }
 }
 
-pub const MIXES: [&str; 7] = ["count-list", "count-map", "fill", "pairs", "map-update", "storm-list", "storm-map"];
+pub const MIXES: [&str; 11] = ["count-list", "count-map", "fill", "pairs", "map-update", "storm-list", "storm-map", "extend-count-map", "extend-count-list", "read-forms-list", "read-forms-map"];
 
 fn eval_stress(server: &mut ArcServer, mix: &str, threads: usize, k: usize, seed: u64) -> Eval {
     let mut ev = Eval::pass(true).class(intern(&format!("stress:{mix}")));
